@@ -17,7 +17,7 @@ func init() {
 		ID:    "C15",
 		Title: "Export followed by import reproduces the tree",
 		Explanation: "Structural necessary conditions of the export/import round trip decided on every CFG path of the exporter, its recursive helper, the id replacer and the importer (DESIGN.md §3/C15); YAML fidelity over all strings is NOT decided. " +
-			"R1 every listing call reachable from the exporter passes includeDeleted=false; the recursive helper lists the children of its node (no type filter), and on every path through the loop over them recurses into a NodeEdgeChildren built from the element and appends it to Children afterwards; the marshalled value is built from the root after the helper ran; " +
+			"R1 every listing call reachable from the exporter passes includeDeleted=false; the recursive helper lists the children of its node (no type filter), and on every path through the loop over them recurses into a NodeEdgeChildren built from the element and appends it to Children afterwards; the marshalled value is built from the root after the helper ran; in every function the exporter reaches (declared helper or function literal) each exit that follows a failed listing call or failed callee reports the failure (non-nil error result, or for a literal a non-nil error variable of the enclosing function, which the exporter examines); " +
 			"R2 a key rewrite `Key = B` in the exporter is reachable only when the key equals A, where the store's point writer of that kind of point maps B back to A; the compaction of edge points drops a point only when its type is tombstone and its value is 0 and never leaves its loop early (enumerated over the 4 valuations); " +
 			"R3 in the id replacer every identifier written to a node or to the text of a point was looked up in the one map under the OLD value and, on a miss, freshly generated and stored under that old value (empty node ids excepted); exactly the node-id points with non-empty text are rewritten (an empty reference stays empty); every node receives the parent given by its caller and every child is visited through its slice element with the parent's NEW id; " +
 			"R4 a string constant is concatenated to a point text only in the importer itself, on an element of Nodes[0].Points whose type is description; with preserve-ids no replacer call is reachable, without it every path to the send passes the replacer on &Nodes[0] with the requested parent; the top node's Parent is set to the requested parent before the send.",
@@ -189,7 +189,7 @@ func c15Find(c *kit.Ctx) *c15Anchors {
 	}
 	a.exportSet = c15Reach(a.exporter, map[*kit.Func]bool{a.list: true})
 	for _, f := range a.exportSet {
-		if f.Decl == nil {
+		if f.Body == nil {
 			continue
 		}
 		var np *types.Var
@@ -321,7 +321,7 @@ func (m *c15Msgs) settle(o *kit.Ob, okFmt string, a ...any) {
 func runC15(c *kit.Ctx) {
 	a := c15Find(c)
 	c.Analysed(a.exporter, a.importer, a.helper, a.replacer)
-	r1 := c.Rule("R1", "export lists live nodes only and descends into every child", 5)
+	r1 := c.Rule("R1", "export lists live nodes only, descends into every child, reports failures", 8)
 	r2 := c.Rule("R2", "export noise reduction is undone by the store / drops only tombstone-0 edge points", 3)
 	r3 := c.Rule("R3", "id replacement is a function of the old id", 5)
 	r4 := c.Rule("R4", "import marker on the top description only; preserve-ids excludes replacement", 4)
@@ -373,6 +373,7 @@ func c15R1(c *kit.Ctx, a *c15Anchors, r1 *kit.Rule) {
 	}
 	c15HelperLoop(c, a, r1)
 	c15ExporterRoot(c, a, r1)
+	c15ErrProp(c, a, r1)
 }
 
 // c15HelperLoop: the recursive helper lists the children of its node and
@@ -466,7 +467,7 @@ func c15HelperLoop(c *kit.Ctx, a *c15Anchors, r1 *kit.Rule) {
 		if elem == "" {
 			m.undec("the loop over the children does not bind the element to a variable")
 		}
-		base := s.Del("rec").Del("app").Del("x")
+		base := s.Del("rec").Del("app").Del("x").Del("inplace")
 		return []kit.S{base.Set("it", "1").Set("el", elem)}, []kit.S{base.Del("it").Del("el").Set("done", "1")}, true
 	}
 	st.OnCall = func(call *ast.CallExpr, n ast.Node, s kit.S) []kit.S {
@@ -478,6 +479,18 @@ func c15HelperLoop(c *kit.Ctx, a *c15Anchors, r1 *kit.Rule) {
 				if u, ok := ast.Unparen(arg).(*ast.UnaryExpr); ok && u.Op == token.AND {
 					if o := kit.ObjOf(info, u.X); o != nil && s.Get("x") == kit.VarID(o) {
 						return []kit.S{s.Set("rec", "1")}
+					}
+					// &N.Children[len(N.Children)-1] right after the element was appended in place
+					if ix, ok := ast.Unparen(u.X).(*ast.IndexExpr); ok && c15Field(info, ix.X, "Children", isN) && s.Get("inplace") == "1" {
+						if be, ok := ast.Unparen(ix.Index).(*ast.BinaryExpr); ok && be.Op == token.SUB {
+							if k, ok := kit.ConstInt(info, be.Y); ok && k == 1 {
+								if lc, ok := ast.Unparen(be.X).(*ast.CallExpr); ok && len(lc.Args) == 1 && c15Field(info, lc.Args[0], "Children", isN) {
+									if bi, ok := kit.Callee(info, lc).(*types.Builtin); ok && bi.Name() == "len" {
+										return []kit.S{s.Set("rec", "1").Set("app", "1")}
+									}
+								}
+							}
+						}
 					}
 				}
 			}
@@ -507,12 +520,30 @@ func c15HelperLoop(c *kit.Ctx, a *c15Anchors, r1 *kit.Rule) {
 			if call, ok := ast.Unparen(as.Rhs[0]).(*ast.CallExpr); ok {
 				if bi, ok := kit.Callee(info, call).(*types.Builtin); ok && bi.Name() == "append" && len(call.Args) == 2 &&
 					c15Field(info, call.Args[0], "Children", isN) {
+					// the element is built in place: append(N.Children, NodeEdgeChildren{NodeEdge: elem})
+					if cl, ok := ast.Unparen(call.Args[1]).(*ast.CompositeLit); ok && c15IsNEC(info.TypeOf(cl)) && s.Get("it") == "1" {
+						for _, el := range cl.Elts {
+							if kv, ok := el.(*ast.KeyValueExpr); ok {
+								if k, ok := kv.Key.(*ast.Ident); ok && k.Name == "NodeEdge" && elemOf(s, kv.Value) {
+									return []kit.S{s.Set("inplace", "1").Del("rec").Del("app")}
+								}
+							}
+						}
+					}
 					if o := kit.ObjOf(info, call.Args[1]); o != nil && s.Get("x") == kit.VarID(o) && s.Get("it") == "1" {
 						if s.Get("rec") != "1" {
 							m.viol("%s copies the child into Children before the recursive call has filled it in: the grandchildren are lost", f.Str(as))
 							return []kit.S{s}
 						}
 						return []kit.S{s.Set("app", "1")}
+					}
+				}
+			}
+			// an empty slice with capacity before the loop changes nothing
+			if mk, ok := ast.Unparen(as.Rhs[0]).(*ast.CallExpr); ok && s.Get("it") != "1" {
+				if bi, ok := kit.Callee(info, mk).(*types.Builtin); ok && bi.Name() == "make" && len(mk.Args) >= 2 {
+					if k, ok := kit.ConstInt(info, mk.Args[1]); ok && k == 0 {
+						return []kit.S{s}
 					}
 				}
 			}
@@ -526,14 +557,19 @@ func c15HelperLoop(c *kit.Ctx, a *c15Anchors, r1 *kit.Rule) {
 	}
 	nOK := 0
 	for _, e := range res.Exits {
-		if e.Return == nil || st.ReturnsNil(e.Return, e.State) == "nonnil" {
+		if c15FailureExit(f, st, e) {
 			continue
+		}
+		at := f.At(f.Node())
+		what := "the end of the function"
+		if e.Return != nil {
+			at, what = f.At(e.Return), f.Str(e.Return)
 		}
 		switch {
 		case e.State.Get("it") == "1":
-			m.viol("the loop over the children can be left early (%s at %s): the remaining children are not exported", f.Str(e.Return), f.At(e.Return))
+			m.viol("the loop over the children can be left early (%s at %s): the remaining children are not exported", what, at)
 		case e.State.Get("done") != "1":
-			m.viol("%s can return success at %s without having listed and visited the children", f.Name, f.At(e.Return))
+			m.viol("%s can return without signalling an error at %s although it has not listed and visited the children", f.Name, at)
 		default:
 			nOK++
 		}
@@ -691,9 +727,21 @@ func c15R2(c *kit.Ctx, a *c15Anchors, r2 *kit.Rule) {
 		}
 		c.Note("C15/R2 reads the key normalisation of %s", w.F.Name)
 	}
-	f := a.helper
+	// every function the exporter reaches that works on a *NodeEdgeChildren
+	for _, f := range a.exportSet {
+		if f.Body == nil {
+			continue
+		}
+		for _, p := range f.Params() {
+			if _, isPtr := p.Type().(*types.Pointer); isPtr && c15IsNEC(p.Type()) {
+				c15R2Func(c, r2, writers, f, p)
+			}
+		}
+	}
+}
+
+func c15R2Func(c *kit.Ctx, r2 *kit.Rule, writers map[string]*pointWriter, f *kit.Func, N *types.Var) {
 	info := f.Info()
-	N := a.helperNode
 	isN := c15IsVar(info, N)
 
 	// the loops of the helper over N.Points / N.EdgePoints
@@ -830,9 +878,7 @@ func c15R2(c *kit.Ctx, a *c15Anchors, r2 *kit.Rule) {
 		o.OK("rewrite %q -> %q only under Key == %q; %s maps %q -> %q", A, to, A, w.F.Name, to, A)
 		return true
 	})
-	if nrew == 0 {
-		c.Note("C15/R2: the export helper rewrites no point key")
-	}
+	_ = nrew
 
 	// ---- (b) compaction loops: an element is dropped only when tombstone && value == 0
 	tomb := dataConst(c, "PointTypeTombstone")
@@ -931,9 +977,7 @@ func c15R2(c *kit.Ctx, a *c15Anchors, r2 *kit.Rule) {
 		}
 		m.settle(o, "elements are kept under every valuation except tombstone && value == 0")
 	}
-	if ncomp == 0 {
-		c.Note("C15/R2: the export helper drops no points")
-	}
+	_ = ncomp
 }
 
 // c15BodyEntry returns the CFG block that starts the body of a range loop.
@@ -947,4 +991,287 @@ func c15BodyEntry(g *kit.Graph, rs *ast.RangeStmt) *cfg.Block {
 		}
 	}
 	return nil
+}
+
+// ---------------------------------------------------------------------------
+// failure signalling and error propagation (R1)
+
+func c15HasErrResult(f *kit.Func) bool {
+	if f.Type.Results == nil || len(f.Type.Results.List) == 0 {
+		return false
+	}
+	last := f.Type.Results.List[len(f.Type.Results.List)-1]
+	return isErrorType(f.Info().TypeOf(last.Type))
+}
+
+// c15Sig lists the error variables of enclosing functions that a function
+// literal assigns: the only channel through which a literal without error
+// result can report a failure.
+func c15Sig(f *kit.Func) []*types.Var {
+	if f.Lit == nil {
+		return nil
+	}
+	info := f.Info()
+	seen := map[*types.Var]bool{}
+	var out []*types.Var
+	ast.Inspect(f.Body, func(n ast.Node) bool {
+		if _, ok := n.(*ast.FuncLit); ok {
+			return false
+		}
+		as, ok := n.(*ast.AssignStmt)
+		if !ok || as.Tok == token.DEFINE {
+			// `x, err := …` inside the literal declares new variables unless err
+			// already exists in the literal's own scope; types.Info tells which
+			if ok {
+				for _, l := range as.Lhs {
+					if id, isID := l.(*ast.Ident); isID && info.Defs[id] == nil {
+						if v, isVar := info.Uses[id].(*types.Var); isVar && isErrorType(v.Type()) && !v.IsField() &&
+							!(f.Lit.Pos() <= v.Pos() && v.Pos() <= f.Lit.End()) && !seen[v] {
+							seen[v] = true
+							out = append(out, v)
+						}
+					}
+				}
+			}
+			return true
+		}
+		for _, l := range as.Lhs {
+			if v, isVar := kit.ObjOf(info, l).(*types.Var); isVar && isErrorType(v.Type()) && !v.IsField() &&
+				!(f.Lit.Pos() <= v.Pos() && v.Pos() <= f.Lit.End()) && !seen[v] {
+				seen[v] = true
+				out = append(out, v)
+			}
+		}
+		return true
+	})
+	return out
+}
+
+// c15FailureExit: the exit reports a failure to the caller (non-nil error
+// result, or a captured error variable known non-nil for a literal).
+func c15FailureExit(f *kit.Func, st *kit.Std, e kit.Exit) bool {
+	if c15HasErrResult(f) {
+		if e.Return == nil {
+			return true // panic / no-return call
+		}
+		if st.ReturnsNil(e.Return, e.State) == "nonnil" {
+			return true
+		}
+		if len(e.Return.Results) > 0 {
+			if o := kit.ObjOf(f.Info(), e.Return.Results[len(e.Return.Results)-1]); o != nil && e.State.Get("my:nn:"+kit.VarID(o)) == "T" {
+				return true
+			}
+		}
+		return false
+	}
+	for _, v := range c15Sig(f) {
+		if e.State.Get("nn:"+kit.VarID(v)) == "T" || e.State.Get("my:nn:"+kit.VarID(v)) == "T" {
+			return true
+		}
+	}
+	return false
+}
+
+// c15ErrProp: in every function the exporter reaches, the failure of a
+// listing call (or of a callee that lists) is reported by every exit that
+// follows it.
+func c15ErrProp(c *kit.Ctx, a *c15Anchors, r1 *kit.Rule) {
+	inSet := map[*kit.Func]bool{a.list: true}
+	for _, f := range a.exportSet {
+		inSet[f] = true
+	}
+	// functions that can fail: error result, or a literal that contains a failing call
+	canFail := map[*kit.Func]bool{a.list: true}
+	for changed := true; changed; {
+		changed = false
+		for _, f := range a.exportSet {
+			if canFail[f] || f.Body == nil {
+				continue
+			}
+			for _, call := range f.AllCalls(false) {
+				if cf := f.CalleeFunc(call); cf != nil && canFail[cf] && inSet[cf] {
+					canFail[f] = true
+					changed = true
+					break
+				}
+			}
+		}
+	}
+	for _, f := range a.exportSet {
+		if f.Body == nil || !canFail[f] || f == a.list {
+			continue
+		}
+		c15ErrPropFunc(c, a, r1, f, canFail)
+	}
+}
+
+func c15ErrPropFunc(c *kit.Ctx, a *c15Anchors, r1 *kit.Rule, f *kit.Func, canFail map[*kit.Func]bool) {
+	info := f.Info()
+	c.Analysed(f)
+	o := r1.Ob(f, f.Node(), "error propagation", "every exit that follows a failed listing call (or failed callee that lists) reports the failure: non-nil error result, or for a function literal a non-nil error variable of the enclosing function")
+	var m c15Msgs
+	type site struct {
+		call *ast.CallExpr
+		cf   *kit.Func
+		key  string
+	}
+	sites := map[*ast.CallExpr]*site{}
+	var order []*site
+	for _, call := range f.AllCalls(false) {
+		cf := f.CalleeFunc(call)
+		if cf == nil || !canFail[cf] {
+			continue
+		}
+		st := &site{call: call, cf: cf, key: fmt.Sprintf("s%d", len(order))}
+		sites[call] = st
+		order = append(order, st)
+	}
+	if len(order) == 0 {
+		o.OK("no failing call")
+		return
+	}
+	mySig := c15Sig(f)
+	isMySig := func(id string) bool {
+		for _, v := range mySig {
+			if kit.VarID(v) == id {
+				return true
+			}
+		}
+		return false
+	}
+	st := &kit.Std{F: f}
+	st.OnErrEdge = func(tag string, isErr bool, s kit.S) (kit.S, bool) {
+		parts := strings.SplitN(tag, "|", 2)
+		if len(parts) != 2 || !strings.HasPrefix(parts[0], "s") {
+			return s, true
+		}
+		if isErr {
+			return s.Set("p:"+parts[0], "failed").Set("my:nn:"+parts[1], "T"), true
+		}
+		if s.Get("p:"+parts[0]) == "pending" {
+			s = s.Set("p:"+parts[0], "ok")
+		}
+		return s.Del("my:nn:" + parts[1]), true
+	}
+	st.OnCall = func(call *ast.CallExpr, n ast.Node, s kit.S) []kit.S {
+		si := sites[call]
+		if si == nil {
+			return nil
+		}
+		if c15HasErrResult(si.cf) {
+			return []kit.S{s.Set("p:"+si.key, "pending")}
+		}
+		// a literal without error result: its channel variables may now be non-nil
+		ch := c15Sig(si.cf)
+		if len(ch) == 0 {
+			return nil // reported inside the literal
+		}
+		for _, v := range ch {
+			id := kit.VarID(v)
+			s = s.Del("nn:"+id).Del("v:"+id).Del("my:nn:"+id).Set("ev:"+id, si.key+"|"+id).Set("ch:"+si.key, id)
+		}
+		return []kit.S{s.Set("p:"+si.key, "pending")}
+	}
+	st.OnNode = func(n ast.Node, s kit.S) []kit.S {
+		as, ok := n.(*ast.AssignStmt)
+		if !ok {
+			return []kit.S{s}
+		}
+		for _, l := range as.Lhs {
+			if lo := kit.ObjOf(info, l); lo != nil {
+				s = s.Del("my:nn:" + kit.VarID(lo))
+			}
+		}
+		if len(as.Rhs) == 1 {
+			if call, ok := ast.Unparen(as.Rhs[0]).(*ast.CallExpr); ok {
+				if si := sites[call]; si != nil && c15HasErrResult(si.cf) {
+					last := as.Lhs[len(as.Lhs)-1]
+					if lo := kit.ObjOf(info, last); lo != nil && isErrorType(lo.Type()) {
+						id := kit.VarID(lo)
+						s = s.Set("ev:"+id, si.key+"|"+id).Set("ch:"+si.key, id)
+					} else {
+						m.viol("the error result of %s is discarded at %s", f.Str(call), f.At(call))
+						s = s.Set("p:"+si.key, "ok")
+					}
+				}
+			}
+		}
+		// an error variable that receives a fresh non-nil error
+		if len(as.Lhs) == len(as.Rhs) {
+			for i, l := range as.Lhs {
+				if lo := kit.ObjOf(info, l); lo != nil && isErrorType(lo.Type()) {
+					if call, ok := ast.Unparen(as.Rhs[i]).(*ast.CallExpr); ok {
+						if q := kit.QualName(kit.Callee(info, call)); q == "fmt.Errorf" || q == "errors.New" {
+							s = s.Set("my:nn:"+kit.VarID(lo), "T")
+						}
+					}
+				}
+			}
+		}
+		return []kit.S{s}
+	}
+	res := c.P.Graph(f).Run(kit.NewS(), st.Client())
+	if res.Overflow {
+		c.Fatalf("C15/R1: state overflow in %s", f.Name)
+	}
+	// calls used as statements: error result dropped
+	ast.Inspect(f.Body, func(n ast.Node) bool {
+		if _, ok := n.(*ast.FuncLit); ok {
+			return false
+		}
+		if es, ok := n.(*ast.ExprStmt); ok {
+			if call, ok := ast.Unparen(es.X).(*ast.CallExpr); ok {
+				if si := sites[call]; si != nil && c15HasErrResult(si.cf) {
+					m.viol("the error result of %s is discarded at %s", f.Str(call), f.At(call))
+				}
+			}
+		}
+		return true
+	})
+	for _, e := range res.Exits {
+		fails := c15FailureExit(f, st, e)
+		at := f.At(f.Node())
+		if e.Return != nil {
+			at = f.At(e.Return)
+		}
+		for _, si := range order {
+			ch := e.State.Get("ch:" + si.key)
+			switch e.State.Get("p:" + si.key) {
+			case "failed":
+				if fails {
+					continue
+				}
+				// the failure still sits in a variable this literal reports through
+				if !c15HasErrResult(f) && isMySig(ch) {
+					continue
+				}
+				if c15HasErrResult(f) {
+					m.viol("after %s (at %s) failed, the exit at %s can return a nil error: the export succeeds with that part of the tree missing", f.Str(si.call.Fun), f.At(si.call), at)
+				} else {
+					m.viol("after %s (at %s) failed, %s returns at %s without a non-nil error in a variable of the enclosing function (assigned error variables of the enclosing function: %d): the caller cannot see the failure and exports a truncated tree", f.Str(si.call.Fun), f.At(si.call), f.Name, at, len(mySig))
+				}
+			case "pending":
+				// never tested: fine only when the error itself is handed on
+				if c15HasErrResult(f) && e.Return != nil && len(e.Return.Results) > 0 {
+					last := e.Return.Results[len(e.Return.Results)-1]
+					if lo := kit.ObjOf(info, last); lo != nil && kit.VarID(lo) == ch {
+						continue
+					}
+					if call, ok := ast.Unparen(last).(*ast.CallExpr); ok && call == si.call {
+						continue
+					}
+					if len(e.Return.Results) == 1 {
+						if call, ok := ast.Unparen(e.Return.Results[0]).(*ast.CallExpr); ok && call == si.call {
+							continue
+						}
+					}
+				}
+				if !c15HasErrResult(f) && isMySig(ch) {
+					continue
+				}
+				m.viol("the result of %s (at %s) is never examined on a path to the exit at %s: a failure is lost", f.Str(si.call.Fun), f.At(si.call), at)
+			}
+		}
+	}
+	m.settle(o, "%d failing call(s); every exit after a failure reports it", len(order))
 }
